@@ -1,0 +1,45 @@
+//go:build verif
+
+// Contracts for the deductive verifier in /verif (comment-only; compiled only
+// with -tags verif).  Syntax: see /verif/DESIGN.md.
+package lfs
+
+// C20 (hooks).  A hook file may be overwritten or removed only if its whole
+// content, normalised the way git-lfs normalises it (undent + trim), is blank,
+// is the current hook text, or is one of the historical texts git-lfs itself
+// generated for this hook type - unless --force was given.
+//@ func (*Hook).Path
+//@   assumed
+//@   props C20
+//@   pure
+//@   ensures result == hookpath(h.Dir, h.Type)
+
+//@ func (*Hook).Exists
+//@   props C20
+//@   ensures result == fexists(hookpath(h.Dir, h.Type))
+
+//@ func (*Hook).matchesCurrent
+//@   props C20
+//@   modifies fresh
+//@   ensures result2 == nil && result0 ==> fexists(hookpath(h.Dir, h.Type))
+//@   ensures result2 == nil && result0 ==> (str_trim(str_undent(fdata(hookpath(h.Dir, h.Type)))) == h.Contents || str_trim(str_undent(fdata(hookpath(h.Dir, h.Type)))) == "" || inlist(h.upgradeables, str_trim(str_undent(fdata(hookpath(h.Dir, h.Type))))))
+//@   ensures result2 == nil && result1 ==> str_trim(str_undent(fdata(hookpath(h.Dir, h.Type)))) == h.Contents
+//@   ensures result2 != nil ==> !result0 && !result1
+
+//@ func (*Hook).Upgrade
+//@   props C20
+//@   at call (*lfs.Hook).write:1 assert fexists(hookpath(h.Dir, h.Type)) ==> (str_trim(str_undent(fdata(hookpath(h.Dir, h.Type)))) == h.Contents || str_trim(str_undent(fdata(hookpath(h.Dir, h.Type)))) == "" || inlist(h.upgradeables, str_trim(str_undent(fdata(hookpath(h.Dir, h.Type))))))
+
+//@ func (*Hook).Uninstall
+//@   props C20
+//@   at call os.RemoveAll:1 assert arg0__ == hookpath(h.Dir, h.Type)
+//@   at call os.RemoveAll:1 assert str_trim(str_undent(fdata(hookpath(h.Dir, h.Type)))) == h.Contents || str_trim(str_undent(fdata(hookpath(h.Dir, h.Type)))) == "" || inlist(h.upgradeables, str_trim(str_undent(fdata(hookpath(h.Dir, h.Type)))))
+
+//@ func (*Hook).Install
+//@   props C20
+//@   at call (*lfs.Hook).write:1 assert force || !fexists(hookpath(h.Dir, h.Type))
+
+//@ func (*Hook).write
+//@   props C20
+//@   modifies ghost fexists[hookpath(h.Dir, h.Type)], ghost fdata[hookpath(h.Dir, h.Type)]
+//@   ensures result == nil ==> fexists(hookpath(h.Dir, h.Type)) && fdata(hookpath(h.Dir, h.Type)) == scat(h.Contents, "\n")
